@@ -15,13 +15,13 @@ ENTRIES = [(HYP, q) for q in (
 
 
 def run(ctx):
-    D.rule_t1(ctx, ENTRIES,
+    ctx.do(D.rule_t1, ENTRIES,
               "regular_polygon -> standard_rotation(2*pi/n) -> "
               "rotation_matrix -> array_like(like=<float>) yields an object "
               "array and the front-page example raises")
-    H.rule_row_convention(ctx)
-    H.rule_g2(ctx)
-    H.rule_odd1(ctx)
-    u1(ctx, ENTRIES, min_functions=15)
+    ctx.do(H.rule_row_convention)
+    ctx.do(H.rule_g2)
+    ctx.do(H.rule_odd1)
+    ctx.do(u1, ENTRIES, min_functions=15)
     ctx.r.assume("every numerical clause (origin -> p, distances along "
                  "geodesics, law of cosines, polygon angles) is not decided")
